@@ -387,6 +387,12 @@ def rule_grow(m, which='both'):
                     f.unit.decl(n['callee'])['name'] == 'addEdge' and tt.t(n['obj']) == ('var', G)]
             if len(gr) != 1 or len(vr) != 1 or len(adds) != 1 or len(subs) != 2:
                 why = 'expected one resize of the graph, one of the name table, two name-table subscripts and one insertion'
+                if len(adds) == 1:
+                    pv = _growth_paths(m, f, tt, G, V, adds[0], subs)
+                    if pv is True:
+                        why = None
+                    elif pv:
+                        why = pv
             else:
                 ga, va = strip_cast(tt.t(gr[0]['args'][0])), strip_cast(tt.t(vr[0]['args'][0]))
                 idx = [strip_cast(tt.t(s['args'][1])) for s in subs]
@@ -482,6 +488,139 @@ def rule_grow(m, which='both'):
                    if len(res.samples) < 6 else None, fn=disp)
     res.require_sites(20 if which == 'both' else 10, 'loaders')
     return res
+
+
+def _growth_paths(m, f, tt, G, V, add, subs):
+    """Path-sensitive version of the growth rule for the text loader: walk every path of one record from the point
+    where both indices are known to the insertion, tracking  lt(x): x < graph.getSize(),  cover: names.size() >=
+    graph.getSize()  (true at the start of every record: both start empty and every path must restore it).
+    True: every subscript of the name table and the insertion are in range on every path and cover is restored;
+    a string: a definite out-of-range path; None: not decided."""
+    from .rules_wl import implied
+    aa = [strip_cast(tt.t(a)) for a in add['args'][:2]]
+    if any(a[0] != 'var' for a in aa):
+        return None
+    start = None
+    for v in aa:
+        defs = [d for d in var_defs(f, v[1])]
+        if len(defs) != 1:
+            return None
+        pos = f.cfg_pos(defs[0][0])
+        if pos is None:
+            return None
+        if start is None or f.can_reach_forward(f.blocks[start[0]].elems[start[1]], defs[0][0]):
+            start = pos
+    addpos = f.cfg_pos(add['i'])
+    if addpos is None:
+        return None
+    maxdefs = {}
+    for n in f.nodes:
+        if n['k'] == 'DeclStmt':
+            for ix, d in enumerate(n['decls']):
+                if ix < len(n['c']) and n['c'][ix] >= 0:
+                    t0 = tt.t(n['c'][ix])
+                    if t0[0] == 'call' and t0[1] == 'std::max':
+                        maxdefs[('var', d)] = [strip_cast(x) for x in t0[2]]
+
+    def close(lt):
+        out = set(lt)
+        for L, parts in maxdefs.items():
+            if L in out:
+                out |= set(parts)
+        return out
+
+    def size_of(t, who):
+        t = strip_cast(t)
+        return t[0] == 'mcall' and t[1].endswith(('::getSize', '::size')) and t[2] == ('var', who)
+
+    def plus1(t):
+        t = strip_cast(t)
+        if t[0] == 'bin' and t[1] == '+' and strip_cast(t[3]) == ('int', 1):
+            return strip_cast(t[2])
+        return None
+    sub_nodes = {sn['i']: strip_cast(tt.t(sn['args'][1])) for sn in subs}
+    verdict = {'bad': None, 'unknown': False, 'paths': 0}
+
+    def walk(b, ix, st, depth):
+        lt, ge, cover, sizeG, grown = st
+        if depth > 60 or verdict['paths'] > 400:
+            verdict['unknown'] = True
+            return
+        blk = f.blocks[b]
+        for e in blk.elems[ix:]:
+            n = f.nodes[e]
+            if n['k'] == 'CXXMemberCallExpr' and 'callee' in n and f.unit.decl(n['callee'])['name'] == 'resize':
+                obj = tt.t(n['obj'])
+                arg = n['args'][0]
+                x = plus1(tt.t(arg))
+                if obj == ('var', G):
+                    if x is not None and x in ge:
+                        lt = close(lt | {x})
+                        grown = grown | {x}
+                    elif x is not None:
+                        lt = close({x})
+                    else:
+                        lt = set()
+                    ge = set()
+                    cover = False
+                    sizeG = x
+                elif obj == ('var', V):
+                    if size_of(tt.t(arg), G) or (x is not None and x == sizeG):
+                        cover = True
+                        grown = set()
+                    elif x is not None and x in ge and cover:
+                        pass            # names grow beyond the graph: still covering
+                    else:
+                        cover = False
+            if e in sub_nodes:
+                y = sub_nodes[e]
+                if not (y in lt and cover):
+                    if y in grown and not cover:
+                        verdict['bad'] = verdict['bad'] or (
+                            'on the path where `%s` is a new largest index the graph is grown to hold it but the name table is '
+                            'not (%s): `%s` writes past the end of the table' % (show(y, f.unit), f.nloc(e), f.expr_text(e)[:40]))
+                    else:
+                        verdict['unknown'] = True
+            if e == add['i']:
+                if not all(a in lt for a in aa):
+                    verdict['unknown'] = True
+                if not cover:
+                    if grown:
+                        verdict['bad'] = verdict['bad'] or (
+                            'on the path where `%s` is a new largest index the graph is grown but the name table is not resized '
+                            'before the record is inserted (%s): the table returned to the caller is shorter than the graph and the '
+                            'next record naming that vertex writes past its end' % (show(sorted(grown)[0], f.unit), f.nloc(e)))
+                    else:
+                        verdict['unknown'] = True
+                verdict['paths'] += 1
+                return
+        succs = [(si, sx) for si, sx in enumerate(blk.succs) if sx is not None and sx >= 0]
+        if not succs:
+            return
+        atom = f.branch_atom(b) if len(blk.succs) > 1 else None
+        for si, sx in succs:
+            lt2, ge2 = set(lt), set(ge)
+            if atom is not None:
+                for (at, pol) in implied(tt.t(atom), si == 0):
+                    at2 = at
+                    if at2[0] == 'bin' and at2[1] in ('>=', '<') and size_of(at2[3], G):
+                        x = strip_cast(at2[2])
+                        if (at2[1] == '>=') == pol:
+                            ge2.add(x)
+                        else:
+                            lt2 = close(lt2 | {x})
+            if not f.can_reach_forward(f.blocks[sx].elems[0] if f.blocks[sx].elems else add['i'], add['i']) and \
+                    not (f.blocks[sx].elems and add['i'] in f.blocks[sx].elems):
+                # leaves the record (continue / error exit): nothing to prove on it
+                if not any(f.can_reach_forward(e2, add['i']) for e2 in f.blocks[sx].elems[:1]):
+                    continue
+            walk(sx, 0, (lt2, ge2, cover, sizeG, set(grown)), depth + 1)
+    walk(start[0], start[1] + 1, (set(), set(), True, None, set()), 0)
+    if verdict['bad']:
+        return verdict['bad']
+    if verdict['unknown'] or verdict['paths'] == 0:
+        return None
+    return True
 
 
 def _grow_helper(g):
